@@ -19,10 +19,10 @@ pub enum Case {
     Uci(UciCase),
 }
 
-pub fn gen_sched(rng: &mut Rng64, step_cap: u64) -> SchedSpec {
+pub fn gen_sched(rng: &mut Rng64, step_cap: u64, max_nth: u64) -> SchedSpec {
     let seed = rng.next();
     let strategy = match rng.below(14) {
-        12 | 13 => Strategy::DelayOne { nth: 1 + rng.below(12) as u32, after: rng.below(4) as u32, max_freeze: *rng.pick(&[2_000u32, 50_000, 2_000_000]) },
+        12 | 13 => Strategy::DelayOne { nth: 1 + rng.below(max_nth) as u32, after: rng.below(4) as u32, max_freeze: *rng.pick(&[2_000u32, 50_000, 2_000_000]) },
         0..=2 => Strategy::Uniform,
         3 => Strategy::Sticky(500),
         4..=5 => Strategy::Sticky(900),
@@ -40,21 +40,21 @@ pub fn generate(ctx: &Ctx, prop: &str, thorough: bool, run_seed: u64, index: u64
     match prop {
         "C15" => {
             let c = crate::table::generate(&mut wl, thorough);
-            (Case::Table(c), gen_sched(&mut sr, 2_000_000))
+            (Case::Table(c), gen_sched(&mut sr, 2_000_000, 12))
         }
         "C04" if index % 5 == 4 => {
             // process clause: `go` on terminal and ordinary positions inside real UCI sessions
             let c = crate::uci::generate(ctx, prop, &mut wl, thorough, index);
-            (Case::Uci(c), gen_sched(&mut sr, 60_000_000))
+            (Case::Uci(c), gen_sched(&mut sr, 60_000_000, 48))
         }
         "C03" | "C04" | "C06" | "C17" | "C19" => {
             let c = crate::search::generate(ctx, prop, &mut wl, thorough, index);
             let cap = crate::search::step_cap(&c);
-            (Case::Search(c), gen_sched(&mut sr, cap))
+            (Case::Search(c), gen_sched(&mut sr, cap, 12))
         }
         "C07" | "C14" | "C18" => {
             let c = crate::uci::generate(ctx, prop, &mut wl, thorough, index);
-            (Case::Uci(c), gen_sched(&mut sr, 60_000_000))
+            (Case::Uci(c), gen_sched(&mut sr, 60_000_000, 48))
         }
         _ => panic!("no scenario for property {}", prop),
     }
